@@ -441,6 +441,7 @@ def run(ctx):
         if base['rate'] == RATES[0] and base['M'] == TAPS[0] and base['nants'] <= 2 and base['spb'] == TAPS[0] * SPB_MULT[0]:
             for nt in ('int64', 'int32', 'int16', 'uint8'):
                 typed.append(dict(base, ntype=nt, fft=[1, 4, 16, 128, 1024, 50000, 65536, 1048576], dur_n=[1, 7], num_blocks=nbs[:3]))
+    ctx.pmap(case_arith, cases)
     ctx.pmap(case_arith, typed)
     real = []
     for rate in (1e3, 3e9):
